@@ -80,6 +80,21 @@ def _zero_constraint_counts(
   efc_nnz_out[worldid] = 0
 
 
+@wp.kernel
+def _njmax_nnz_overflow(
+  # Data in:
+  njmax_nnz_in: int,
+  # In:
+  efc_nnz_in: wp.array[int],
+  # Data out:
+  overflow_out: wp.array[int],
+):
+  worldid = wp.tid()
+
+  if efc_nnz_in[worldid] > njmax_nnz_in:
+    overflow_out[worldid] = overflow_out[worldid] | types.OverflowType.NJMAX_NNZ
+
+
 @wp.func
 def _efc_row(
   # Model:
@@ -574,6 +589,7 @@ def _equality_joint(is_sparse: bool, newton: bool):
       efc_J_rownnz_out[worldid, efcid] = rownnz
       rowadr = wp.atomic_add(efc_nnz_out, worldid, rownnz)
       if rowadr + rownnz > njmax_nnz_in:
+        efc_J_rownnz_out[worldid, efcid] = 0
         return
       efc_J_rowadr_out[worldid, efcid] = rowadr
       efc_J_colind_out[worldid, 0, rowadr] = dofadr1
@@ -914,6 +930,7 @@ def _equality_flex(is_sparse: bool, newton: bool):
       efc_J_rownnz_out[worldid, efcid] = rownnz
       efc_rowadr = wp.atomic_add(efc_nnz_out, worldid, rownnz)
       if efc_rowadr + rownnz > njmax_nnz_in:
+        efc_J_rownnz_out[worldid, efcid] = 0
         return
       efc_J_rowadr_out[worldid, efcid] = efc_rowadr
       for i in range(rownnz):
@@ -1669,6 +1686,7 @@ def _equality_flexstrain(is_sparse: bool, newton: bool):
         efc_J_rownnz_out[worldid, efcid] = rownnz
         efc_rowadr = wp.atomic_add(efc_nnz_out, worldid, rownnz)
         if efc_rowadr + rownnz > njmax_nnz_in:
+          efc_J_rownnz_out[worldid, efcid] = 0
           return
         efc_J_rowadr_out[worldid, efcid] = efc_rowadr
       else:
@@ -1821,6 +1839,7 @@ def _friction_dof(is_sparse: bool, newton: bool):
       efc_J_rownnz_out[worldid, efcid] = 1
       rowadr = wp.atomic_add(efc_nnz_out, worldid, 1)
       if rowadr + 1 > njmax_nnz_in:
+        efc_J_rownnz_out[worldid, efcid] = 0
         return
       efc_J_rowadr_out[worldid, efcid] = rowadr
       efc_J_colind_out[worldid, 0, rowadr] = dofid
@@ -1931,6 +1950,7 @@ def _friction_tendon(is_sparse: bool, newton: bool):
       efc_J_rownnz_out[worldid, efcid] = rownnz_tenJ
       rowadr_efc = wp.atomic_add(efc_nnz_out, worldid, rownnz_tenJ)
       if rowadr_efc + rownnz_tenJ > njmax_nnz_in:
+        efc_J_rownnz_out[worldid, efcid] = 0
         return
       efc_J_rowadr_out[worldid, efcid] = rowadr_efc
 
@@ -2061,6 +2081,7 @@ def _limit_slide_hinge(is_sparse: bool, newton: bool):
         efc_J_rownnz_out[worldid, efcid] = 1
         rowadr = wp.atomic_add(efc_nnz_out, worldid, 1)
         if rowadr + 1 > njmax_nnz_in:
+          efc_J_rownnz_out[worldid, efcid] = 0
           return
         efc_J_rowadr_out[worldid, efcid] = rowadr
         efc_J_colind_out[worldid, 0, rowadr] = dofadr
@@ -2183,6 +2204,7 @@ def _limit_ball(is_sparse: bool, newton: bool):
         efc_J_rownnz_out[worldid, efcid] = 3
         rowadr = wp.atomic_add(efc_nnz_out, worldid, 3)
         if rowadr + 3 > njmax_nnz_in:
+          efc_J_rownnz_out[worldid, efcid] = 0
           return
         efc_J_rowadr_out[worldid, efcid] = rowadr
 
@@ -2316,6 +2338,7 @@ def _limit_tendon(is_sparse: bool, newton: bool):
         efc_J_rownnz_out[worldid, efcid] = rownnz_tenJ
         rowadr_efc = wp.atomic_add(efc_nnz_out, worldid, rownnz_tenJ)
         if rowadr_efc + rownnz_tenJ > njmax_nnz_in:
+          efc_J_rownnz_out[worldid, efcid] = 0
           return
         efc_J_rowadr_out[worldid, efcid] = rowadr_efc
 
@@ -5835,3 +5858,6 @@ def make_constraint(m: types.Model, d: types.Data):
             d.efc.frictionloss,
           ],
         )
+
+  if m.is_sparse:
+    wp.launch(_njmax_nnz_overflow, dim=d.nworld, inputs=[d.njmax_nnz, efc_nnz], outputs=[d.overflow])
